@@ -11,7 +11,7 @@ fn paren(s: &str) -> String {
     }
 }
 
-fn strip_parens(e: &Expr) -> &Expr {
+pub fn strip_parens(e: &Expr) -> &Expr {
     match e {
         Expr::Paren(p) => strip_parens(&p.expr),
         Expr::Group(p) => strip_parens(&p.expr),
@@ -156,6 +156,37 @@ impl<'a> Tr<'a> {
                     ty: Ty::Tuple(vs.into_iter().map(|v| v.ty).collect()),
                 })
             }
+            Expr::Repeat(r) => {
+                // `[e; N]` with a literal N and a literal e: the N-tuple
+                let n = match &*r.len {
+                    Expr::Lit(ExprLit { lit: Lit::Int(i), .. }) => i.base10_parse::<usize>().map_err(|x| unsupported(e, &x.to_string()))?,
+                    _ => return Err(unsupported(e, "array repeat expression whose length is not a literal")),
+                };
+                if !(2..=8).contains(&n) || !matches!(strip_parens(&r.expr), Expr::Lit(_)) {
+                    return Err(unsupported(e, "array repeat expression (only `[literal; 2..8]`)"));
+                }
+                let eh = match hint {
+                    Some(Ty::Tuple(ts)) if ts.len() == n => Some(ts[0].clone()),
+                    _ => None,
+                };
+                let v = self.pure(&r.expr, env, eh.as_ref())?;
+                Ok(Val { s: format!("({})", vec![v.s.clone(); n].join(", ")), ty: Ty::Tuple(vec![v.ty; n]) })
+            }
+            Expr::Index(ix) if matches!(self.pure(&ix.expr, env, None).map(|b| b.ty), Ok(Ty::Slice(_))) => {
+                // `s[i]` on a slice of integers (Rust panics out of range: 0 here)
+                let b = self.pure(&ix.expr, env, None)?;
+                if !matches!(&b.ty, Ty::Slice(t) if t.is_int()) {
+                    return Err(unsupported(e, "indexing a slice whose elements are not integers"));
+                }
+                let us = Ty::int(IntTy::Usize);
+                let i = self.pure(&ix.index, env, Some(&us))?;
+                join(&i.ty, &us).map_err(|m| unsupported(e, &m))?;
+                let elem = match &b.ty {
+                    Ty::Slice(t) => (**t).clone(),
+                    _ => unreachable!(),
+                };
+                Ok(Val { s: format!("(Casts.slice_idx {} {})", b.s, i.s), ty: elem })
+            }
             Expr::Index(ix) => {
                 let b = self.pure(&ix.expr, env, None)?;
                 match &*ix.index {
@@ -196,7 +227,8 @@ impl<'a> Tr<'a> {
 
     pub fn pure_via_k(&mut self, e: &Expr, env: &Env, hint: Option<&Ty>) -> R<Val> {
         let eff = self.effects_expr(e);
-        if eff.ret || !eff.assigned.is_empty() {
+        // assignments to variables declared inside `e` itself (names unknown outside) stay inside
+        if eff.ret || eff.assigned.iter().any(|n| n.starts_with('<') || env.get(n).is_some()) {
             return Err(unsupported(e, &format!("{} with control flow / assignments in an operand position that is not hoisted", kind_of(e))));
         }
         let cell: std::cell::RefCell<Option<Ty>> = std::cell::RefCell::new(None);
@@ -435,12 +467,25 @@ impl<'a> Tr<'a> {
 
     pub fn path_expr(&mut self, p: &ExprPath, env: &Env, hint: Option<&Ty>) -> R<Val> {
         let at = &Expr::Path(p.clone());
-        if p.qself.is_some() {
-            return Err(unsupported(at, "qualified path `<T as Trait>::..`"));
+        let mut segs: Vec<String> = p.path.segments.iter().map(|s| s.ident.to_string()).collect();
+        if let Some(q) = &p.qself {
+            // `<Self as Trait>::ITEM` is `Self::ITEM` (the trait only disambiguates)
+            let is_self = matches!(&*q.ty, Type::Path(tp) if tp.qself.is_none() && tp.path.is_ident("Self"));
+            if !is_self || q.position == 0 || q.position >= segs.len() {
+                return Err(unsupported(at, "qualified path `<T as Trait>::..` (only `<Self as Trait>::ITEM`)"));
+            }
+            let mut s2 = vec!["Self".to_string()];
+            s2.extend(segs[q.position..].iter().cloned());
+            segs = s2;
         }
-        let segs: Vec<String> = p.path.segments.iter().map(|s| s.ident.to_string()).collect();
-        if segs.len() >= 2 && self.generic_tys.contains(&segs[0]) {
-            return match env.get(&segs.join("::")) {
+        if segs.len() == 3 && segs[0] == "Self" {
+            // `Self::Assoc::MAX` where `type Assoc = <integer type>;`
+            if let Some(t) = self.t.assoc_int(&self.cur_file, self.self_ty.as_deref(), &segs[1]) {
+                segs = vec![t.name().to_string(), segs[2].clone()];
+            }
+        }
+        if segs.len() >= 2 && p.qself.is_none() && self.generic_tys.contains(&segs[0]) {
+            return match env.get(&generic_item_key(&p.path)) {
                 Some(v) => Ok(Val { s: v.coq.clone(), ty: v.ty.clone() }),
                 None => Err(unsupported(at, &format!("associated item `{}` of a generic parameter", segs.join("::")))),
             };
@@ -572,7 +617,22 @@ impl<'a> Tr<'a> {
                 },
             }
         }
-        if s.fields.len() > ftys.len() {
+        // `field: PhantomData` of a PhantomData field carries no data
+        let mut phantoms = 0;
+        if let Ty::Adt(n) = &ty {
+            if let Some(si) = self.t.struct_info(n) {
+                for f in si.fields.iter().filter(|f| is_phantom(&f.ty)) {
+                    let fv = s.fields.iter().find(|x| matches!(&x.member, Member::Named(i) if *i == f.name));
+                    match fv {
+                        Some(x) if matches!(strip_parens(&x.expr), Expr::Path(p) if p.path.segments.last().map(|s| s.ident == "PhantomData").unwrap_or(false)) => phantoms += 1,
+                        Some(_) => return Err(unsupported(at, &format!("field `{}` (PhantomData) initialised with something else than `PhantomData`", f.name))),
+                        None if rest.is_some() => {}
+                        None => return Err(unsupported(at, &format!("field `{}` missing in struct literal", f.name))),
+                    }
+                }
+            }
+        }
+        if s.fields.len() > ftys.len() + phantoms {
             return Err(unsupported(at, "unknown field in struct literal"));
         }
         Ok(Val { s: app(&ctor, &args), ty })
